@@ -15,9 +15,10 @@ ANCHORS = ["pyoma2.functions.gen:check_on_geo1", "pyoma2.functions.gen:check_on_
 REQUIRED_MONITORS = ["arguments unchanged + second definition", "alignment@def_geo1_by_file", "alignment@def_geo2_by_file", "alignment@def_geo1(arguments)", "alignment@def_geo2(arguments)", "corruption->ValueError@geo1",
                      "corruption->ValueError@geo2", "mapping@dfphi_map_func", "artists@plot_mode_geo1", "artists@plot_mode_geo2_mpl", "names@flatten_sns_names"]
 CORR1 = ["missing sensors names", "missing sensors coordinates", "missing sensors directions", "unknown sheet", "coordinates 2 columns", "directions 2 columns", "directions fewer rows",
-         "directions other index", "BG nodes 2 columns", "BG lines 3 columns", "BG surfaces 2 columns", "name not in coordinates"]
+         "directions other index", "BG nodes 2 columns", "BG lines 3 columns", "BG surfaces 2 columns", "name not in coordinates", "sensors lines 3 columns"]
 CORR2 = ["missing sensors names", "missing points coordinates", "missing mapping", "unknown sheet", "points 2 columns", "mapping fewer rows", "sign fewer rows", "name not in mapping",
-         "constraint column unknown sensor", "constraint never used", "BG nodes 2 columns", "BG lines 3 columns", "BG surfaces 2 columns"]
+         "constraint column unknown sensor", "constraint never used", "BG nodes 2 columns", "BG lines 3 columns", "BG surfaces 2 columns", "sensors lines 3 columns",
+         "sensors surfaces 2 columns", "mapping other index"]
 ALL_STATES = ["geo1:" + c for c in CORR1] + ["geo2:" + c for c in CORR2] + ["table rows permuted against name order", "multi-setup names (table)", "multi-setup names (list of lists)",
                                                                                  "single names (row table)", "single names (list)", "single names (array)", "optional sheets all omitted",
                                                                                  "optional sheets all present", "constraints used", "constraints sheet omitted"]
@@ -397,6 +398,19 @@ def corrupt(rng, which, name, tabs, flat, names_tab):
         idx = list(d["sensors directions"].index)
         idx[-1] = "zz_unknown"
         d["sensors directions"] = d["sensors directions"].set_axis(idx)
+    elif name == "sensors lines 3 columns":
+        d["sensors lines"] = pd.DataFrame([[1, 2, 1]] if rng.random() < 0.7 else [[1]])
+    elif name == "sensors surfaces 2 columns":
+        d["sensors surfaces"] = pd.DataFrame([[1, 2]] if rng.random() < 0.7 else [[1, 2, 1, 2]])
+    elif name == "mapping other index":
+        # the mapping sheet's point labels differ from those of the coordinate sheet (one label replaced / the rows in another order): the
+        # two sheets describe the same points row by row, as 'sensors coordinates' and 'sensors directions' do for geometry 1
+        idx = list(d["mapping"].index)
+        if len(idx) >= 2 and rng.random() < 0.5:
+            idx = idx[1:] + idx[:1]
+        else:
+            idx[-1] = "zz_unknown"
+        d["mapping"] = d["mapping"].set_axis(idx)
     elif name == "BG nodes 2 columns":
         d["BG nodes"] = pd.DataFrame(np.ones((2, 2)))
     elif name == "BG lines 3 columns":
@@ -461,8 +475,9 @@ def run_corrupt(ctx, case, rng, which):
     ctx.ev(tag)
     via_file = rng.random() < 0.5
     ARGS1 = {"coordinates 2 columns", "directions 2 columns", "directions fewer rows", "directions other index", "name not in coordinates",
-             "BG nodes 2 columns", "BG lines 3 columns", "BG surfaces 2 columns"}
-    ARGS2 = {"points 2 columns", "mapping fewer rows", "sign fewer rows", "name not in mapping", "constraint column unknown sensor", "constraint never used"}
+             "BG nodes 2 columns", "BG lines 3 columns", "BG surfaces 2 columns", "sensors lines 3 columns"}
+    ARGS2 = {"points 2 columns", "mapping fewer rows", "sign fewer rows", "name not in mapping", "constraint column unknown sensor", "constraint never used",
+             "sensors lines 3 columns", "sensors surfaces 2 columns"}
     via_args = name in (ARGS1 if which == 1 else ARGS2) and rng.random() < 0.4
     try:
         if via_args:
